@@ -2,9 +2,11 @@
 
 PROPS = {
     "C18": {
-        "lean_modules": ["Posmint.Props.C18", "Posmint.Props.C18Coins"],
-        "namespaces": ["Posmint.Props.C18", "Posmint.Props.C18Coins"],
+        "lean_modules": ["Posmint.Props.C18", "Posmint.Props.C18Coins", "Posmint.Props.C18Quo"],
+        "namespaces": ["Posmint.Props.C18", "Posmint.Props.C18Coins", "Posmint.Props.C18Quo"],
         "required_theorems": ["Posmint.Props.C18." + t for t in ("intMul_exact", "chopRound_spec", "decMul_spec", "decCeil_spec")] +
+                             ["Posmint.Props.C18Quo." + t for t in ("decQuoTruncate_exact", "decQuo_rounds_q36", "decQuo_partial", "decQuo_double_rounding_counterexample",
+                              "decQuoRoundUp_ceils_q36", "decQuoRoundUp_partial", "decQuoRoundUp_lost_tail_counterexample")] +
                              ["Posmint.Props.C18Coins." + t for t in ("isValid_canon", "amountOf_spec", "safeAdd_spec", "safeAdd_none_iff", "add_canon",
                               "safeSub_spec", "sub_spec", "add_sub_inverse", "sub_add_inverse", "isAllGTE_spec", "isAllGT_spec", "isAnyGT_spec",
                               "isAnyGTE_spec", "denomsSubsetOf_spec", "isEqual_partial", "isEqual_sound", "newCoins_spec", "newCoins_of_valid")],
@@ -331,7 +333,9 @@ MANIFEST_TEXT = {
     "C18": {
         "text": "Lean theorems: Int/Uint Add/Sub/Mul equal exact arithmetic or panic exactly when out of range (incl. Mul's "
                 "pre-check being neither too strict nor too lax); chopPrecisionAndRound is the unique half-to-even rounding for "
-                "all signs, Truncate is toward zero, RoundUp/Ceil are ceilings; Dec.Mul/RoundInt/TruncateInt specs with range panics. "
+                "all signs, Truncate is toward zero, RoundUp/Ceil are ceilings; Dec.Mul/RoundInt/TruncateInt specs with range panics; "
+                "QuoTruncate is the exact truncation, Quo is the exact half-to-even rounding and QuoRoundUp the exact ceiling except in the "
+                "double-rounding cases, which are excluded by an explicit hypothesis and exhibited by proved counterexamples (recorded findings). "
                 "Coins: IsValid implies the canonical form (sorted, no duplicates, positive); AmountOf's binary search is the per-denomination "
                 "amount; Add / SafeSub / Sub are per-denomination sums and differences on the canonical form, panic exactly on Int overflow / a "
                 "negative result, SafeSub reports exactly when an amount would go negative, Add and Sub are inverse both ways; the seven "
